@@ -347,7 +347,9 @@ def render_verilog(nl, lib, seed, simple=False, modname='top'):
         if all(v is not None for v in cv) and st.pick(4):
             width = len(grp)
             val = int(''.join(str(v) for v in cv), 2)
-            lit = [f"{width}'b" + ''.join(str(v) for v in cv), f"{width}'d{val}", f"{width}'h{val:x}", f"{width}'B" + ''.join(str(v) for v in cv)][st.pick(4)]
+            over = val + ((1 + st.pick(5)) << width) if st.pick(4) == 0 else val     # digits beyond the declared width are cut off (Verilog truncates)
+            lit = [f"{width}'b" + ('1' if over != val else '') + ''.join(str(v) for v in cv), f"{width}'d{over}", f"{width}'h{over:x}",
+                   f"{width}'B" + ''.join(str(v) for v in cv)][st.pick(4)]
             lhs = po_names[grp[0]] if width == 1 else '{' + ','.join(po_names[j] for j in grp) + '}'
             assigns.append(f'assign {lhs}{st.sp()}={st.sp()}{lit}{st.sp()};')
         elif len(grp) == 1:
